@@ -204,6 +204,115 @@ Section TyInd.
     end.
 End TyInd.
 
+(* ------------------------------------------------------------------ value_eqb decides equality *)
+
+Section ValInd.
+  Variable P : value -> Prop.
+  Hypothesis HBool : forall b, P (VBool b).
+  Hypothesis HInt : forall z, P (VInt z).
+  Hypothesis HFloat : forall t, P (VFloat t).
+  Hypothesis HStr : forall s, P (VStr s).
+  Hypothesis HSliceN : P (VSlice None).
+  Hypothesis HSlice : forall l, Forall P l -> P (VSlice (Some l)).
+  Hypothesis HArr : forall l, Forall P l -> P (VArr l).
+  Hypothesis HMapN : P (VMap None).
+  Hypothesis HMap : forall m, Forall (fun kv => P (snd kv)) m -> P (VMap (Some m)).
+  Hypothesis HStruct : forall l, Forall P l -> P (VStruct l).
+  Hypothesis HCustom : forall v, P v -> P (VCustom v).
+  Hypothesis HSkip : P VSkip.
+  Hypothesis HOther : P VOther.
+
+  Fixpoint value_ind2 (v : value) : P v :=
+    let fix go (l : list value) : Forall P l :=
+        match l with
+        | [] => Forall_nil _
+        | x :: r => Forall_cons x (value_ind2 x) (go r)
+        end in
+    match v with
+    | VBool b => HBool b
+    | VInt z => HInt z
+    | VFloat t => HFloat t
+    | VStr s => HStr s
+    | VSlice None => HSliceN
+    | VSlice (Some l) => HSlice l (go l)
+    | VArr l => HArr l (go l)
+    | VMap None => HMapN
+    | VMap (Some m) =>
+        HMap m ((fix gom (m : list (mkey * value)) : Forall (fun kv => P (snd kv)) m :=
+                   match m with
+                   | [] => Forall_nil _
+                   | kv :: r => Forall_cons kv (value_ind2 (snd kv)) (gom r)
+                   end) m)
+    | VStruct l => HStruct l (go l)
+    | VCustom x => HCustom x (value_ind2 x)
+    | VSkip => HSkip
+    | VOther => HOther
+    end.
+End ValInd.
+
+Fixpoint values_eqb (x y : list value) : bool :=
+  match x, y with
+  | [], [] => true
+  | a :: x', b :: y' => value_eqb a b && values_eqb x' y'
+  | _, _ => false
+  end.
+
+Lemma values_eqb_eq x :
+  Forall (fun a => forall b, value_eqb a b = true -> a = b) x ->
+  forall y, values_eqb x y = true -> x = y.
+Proof.
+  induction 1 as [|a x Ha Hx IH]; intros [|b y] H; try discriminate; [reflexivity|].
+  cbn [values_eqb] in H. apply andb_true_iff in H. destruct H as [H1 H2].
+  rewrite (Ha b H1), (IH y H2). reflexivity.
+Qed.
+
+Lemma mkey_eqb_eq a b : mkey_eqb a b = true -> a = b.
+Proof.
+  destruct a, b; cbn [mkey_eqb]; try discriminate; intros H.
+  - apply bytes_eqb_eq in H. subst. reflexivity.
+  - apply Z.eqb_eq in H. subst. reflexivity.
+Qed.
+
+Lemma value_eqb_eq a : forall b, value_eqb a b = true -> a = b.
+Proof.
+  induction a using value_ind2; intros b0 E; destruct b0; try discriminate E;
+    try (destruct l0; discriminate E); try (destruct m0; discriminate E).
+  - cbn in E. apply Bool.eqb_prop in E. subst. reflexivity.
+  - cbn in E. apply Z.eqb_eq in E. subst. reflexivity.
+  - cbn in E. apply bytes_eqb_eq in E. subst. reflexivity.
+  - cbn in E. apply bytes_eqb_eq in E. subst. reflexivity.
+  - destruct l; [discriminate E|reflexivity].
+  - destruct l0 as [l0|]; [|discriminate E]. f_equal. f_equal.
+    apply (values_eqb_eq l H). exact E.
+  - f_equal. apply (values_eqb_eq l H). exact E.
+  - destruct m; [discriminate E|reflexivity].
+  - destruct m0 as [m0|]; [|discriminate E]. f_equal. f_equal.
+    cbn [value_eqb] in E. revert m0 E.
+    induction H as [|[k a] m Ha Hm IH]; intros [|[k' b] m0] E; try discriminate; [reflexivity|].
+    apply andb_true_iff in E. destruct E as [E1 E3]. apply andb_true_iff in E1. destruct E1 as [E1 E2].
+    cbn [snd] in Ha. rewrite (mkey_eqb_eq _ _ E1), (Ha _ E2), (IH _ E3). reflexivity.
+  - f_equal. apply (values_eqb_eq l H). exact E.
+  - cbn [value_eqb] in E. rewrite (IHa _ E). reflexivity.
+  - reflexivity.
+  - reflexivity.
+Qed.
+
+Lemma value_eqb_refl a : value_eqb a a = true.
+Proof.
+  induction a using value_ind2; cbn [value_eqb]; try reflexivity.
+  - destruct b; reflexivity.
+  - apply Z.eqb_refl.
+  - apply bytes_eqb_refl.
+  - apply bytes_eqb_refl.
+  - induction H as [|a l Ha Hl IH]; [reflexivity|]. rewrite Ha. exact IH.
+  - induction H as [|a l Ha Hl IH]; [reflexivity|]. rewrite Ha. exact IH.
+  - induction H as [|[k a] l Ha Hl IH]; [reflexivity|]. cbn [snd] in Ha. rewrite Ha.
+    replace (mkey_eqb k k) with true; [exact IH|].
+    destruct k; cbn [mkey_eqb]; [symmetry; apply bytes_eqb_refl|symmetry; apply Z.eqb_refl].
+  - induction H as [|a l Ha Hl IH]; [reflexivity|]. rewrite Ha. exact IH.
+  - exact IHa.
+Qed.
+
 (* ------------------------------------------------------------------ named field loops *)
 
 Fixpoint flat_fields (d : nat) (cur : list nat) (i : nat) (fs : list (finfo * ty)) : list flat :=
@@ -230,6 +339,7 @@ Fixpoint enc_fields (fl : list flat) (d : nat) (cur : list nat) (i : nat)
        then members (enc (Some (fl, S d, cur ++ [i])) ft x)
        else if candidate fi && live fl (jname fi) (cur ++ [i])
                && negb (f_omitempty fi && is_empty x)
+               && negb (f_omitzero fi && value_eqb x (zero ft))
             then [(jname fi, enc None ft x)]
             else []) ++ enc_fields fl d cur (S i) fs' vs'
   | _, _ => []
@@ -490,7 +600,7 @@ Proof.
   destruct (expands fi ft) eqn:Ex.
   - apply Hft. exact (expands_struct _ _ Ex).
   - destruct (candidate fi) eqn:Ec; cbn [andb].
-    + destruct (live fl (jname fi) (cur ++ [i]) && negb (f_omitempty fi && is_empty x)).
+    + match goal with |- context [if ?c then [_] else []] => destruct c end.
       * cbn. apply incl_refl.
       * intros k Hk. destruct Hk.
     + intros k Hk. destruct Hk.
@@ -680,6 +790,7 @@ Proof.
     cbn [enc_fields dec_fields].
     set (H0 := if expands fi ft then members (enc (Some (fl, S d, cur ++ [i])) ft x)
                else if candidate fi && live fl (jname fi) (cur ++ [i]) && negb (f_omitempty fi && is_empty x)
+                       && negb (f_omitzero fi && value_eqb x (zero ft))
                     then [(jname fi, enc None ft x)] else []).
     set (T0 := enc_fields fl d cur (S i) fs vs).
     (* keys of what this field emits are among its flat names; same for the rest *)
@@ -692,7 +803,7 @@ Proof.
     { subst H0. destruct (expands fi ft) eqn:Ex.
       - apply keys_in_names_all. exact (expands_struct _ _ Ex).
       - destruct (candidate fi); cbn [andb].
-        + destruct (live fl (jname fi) (cur ++ [i]) && negb (f_omitempty fi && is_empty x));
+        + match goal with |- context [if ?c then [_] else []] => destruct c end;
             [apply incl_refl|intros k Hk; destruct Hk].
         + intros k Hk; destruct Hk. }
     (* the tail, by the induction hypothesis with pre := pre ++ H0 *)
@@ -736,12 +847,21 @@ Proof.
       { intros Hk. apply (Hpost _ Hk). apply in_or_app. left. left. reflexivity. }
       cbn [members]. rewrite assoc_app. rewrite (assoc_notin _ _ Hnpre).
       destruct Hft as [Hft1 _].
-      destruct (f_omitempty fi && is_empty x) eqn:Eom; subst H0; rewrite Hc, Hlive; cbn [andb negb].
+      assert (Hzero : (f_omitempty fi && is_empty x) || (f_omitzero fi && value_eqb x (zero ft)) = true ->
+                      x = zero ft).
+      { intros Ho. apply orb_true_iff in Ho. destruct Ho as [Ho|Ho]; apply andb_true_iff in Ho; destruct Ho as [Eo Ee].
+        - rewrite Eo in Hom. cbn in Hom. exact (omit_zero ft x Hom Hw1 Ee).
+        - exact (value_eqb_eq _ _ Ee). }
+      destruct ((f_omitempty fi && is_empty x) || (f_omitzero fi && value_eqb x (zero ft))) eqn:Eom;
+        subst H0; rewrite Hc, Hlive; cbn [andb].
       * (* omitted: the member is absent everywhere, the field decodes to its zero value *)
+        replace (negb (f_omitempty fi && is_empty x) && negb (f_omitzero fi && value_eqb x (zero ft)))
+          with false by (rewrite <- negb_orb, Eom; reflexivity).
         cbn [app]. rewrite assoc_app, (assoc_notin _ _ HnT), (assoc_notin _ _ Hnpost).
-        apply andb_true_iff in Eom. destruct Eom as [Eo Ee]. rewrite Eo in Hom. cbn in Hom.
-        rewrite <- (omit_zero ft x Hom Hw1 Ee). reflexivity.
-      * cbn [app assoc]. rewrite bytes_eqb_refl.
+        rewrite <- (Hzero eq_refl). reflexivity.
+      * replace (negb (f_omitempty fi && is_empty x) && negb (f_omitzero fi && value_eqb x (zero ft)))
+          with true by (rewrite <- negb_orb, Eom; reflexivity).
+        cbn [app assoc]. rewrite bytes_eqb_refl.
         rewrite (Hft1 Hlt x Hw1). reflexivity.
 Qed.
 
@@ -808,111 +928,3 @@ Corollary lossless_roundtrip t v :
   lossless t = true -> wf t v = true -> roundtrip t v = Some v.
 Proof. intros. unfold roundtrip. apply lossless_sound; assumption. Qed.
 
-(* ------------------------------------------------------------------ value_eqb decides equality *)
-
-Section ValInd.
-  Variable P : value -> Prop.
-  Hypothesis HBool : forall b, P (VBool b).
-  Hypothesis HInt : forall z, P (VInt z).
-  Hypothesis HFloat : forall t, P (VFloat t).
-  Hypothesis HStr : forall s, P (VStr s).
-  Hypothesis HSliceN : P (VSlice None).
-  Hypothesis HSlice : forall l, Forall P l -> P (VSlice (Some l)).
-  Hypothesis HArr : forall l, Forall P l -> P (VArr l).
-  Hypothesis HMapN : P (VMap None).
-  Hypothesis HMap : forall m, Forall (fun kv => P (snd kv)) m -> P (VMap (Some m)).
-  Hypothesis HStruct : forall l, Forall P l -> P (VStruct l).
-  Hypothesis HCustom : forall v, P v -> P (VCustom v).
-  Hypothesis HSkip : P VSkip.
-  Hypothesis HOther : P VOther.
-
-  Fixpoint value_ind2 (v : value) : P v :=
-    let fix go (l : list value) : Forall P l :=
-        match l with
-        | [] => Forall_nil _
-        | x :: r => Forall_cons x (value_ind2 x) (go r)
-        end in
-    match v with
-    | VBool b => HBool b
-    | VInt z => HInt z
-    | VFloat t => HFloat t
-    | VStr s => HStr s
-    | VSlice None => HSliceN
-    | VSlice (Some l) => HSlice l (go l)
-    | VArr l => HArr l (go l)
-    | VMap None => HMapN
-    | VMap (Some m) =>
-        HMap m ((fix gom (m : list (mkey * value)) : Forall (fun kv => P (snd kv)) m :=
-                   match m with
-                   | [] => Forall_nil _
-                   | kv :: r => Forall_cons kv (value_ind2 (snd kv)) (gom r)
-                   end) m)
-    | VStruct l => HStruct l (go l)
-    | VCustom x => HCustom x (value_ind2 x)
-    | VSkip => HSkip
-    | VOther => HOther
-    end.
-End ValInd.
-
-Fixpoint values_eqb (x y : list value) : bool :=
-  match x, y with
-  | [], [] => true
-  | a :: x', b :: y' => value_eqb a b && values_eqb x' y'
-  | _, _ => false
-  end.
-
-Lemma values_eqb_eq x :
-  Forall (fun a => forall b, value_eqb a b = true -> a = b) x ->
-  forall y, values_eqb x y = true -> x = y.
-Proof.
-  induction 1 as [|a x Ha Hx IH]; intros [|b y] H; try discriminate; [reflexivity|].
-  cbn [values_eqb] in H. apply andb_true_iff in H. destruct H as [H1 H2].
-  rewrite (Ha b H1), (IH y H2). reflexivity.
-Qed.
-
-Lemma mkey_eqb_eq a b : mkey_eqb a b = true -> a = b.
-Proof.
-  destruct a, b; cbn [mkey_eqb]; try discriminate; intros H.
-  - apply bytes_eqb_eq in H. subst. reflexivity.
-  - apply Z.eqb_eq in H. subst. reflexivity.
-Qed.
-
-Lemma value_eqb_eq a : forall b, value_eqb a b = true -> a = b.
-Proof.
-  induction a using value_ind2; intros b0 E; destruct b0; try discriminate E;
-    try (destruct l0; discriminate E); try (destruct m0; discriminate E).
-  - cbn in E. apply Bool.eqb_prop in E. subst. reflexivity.
-  - cbn in E. apply Z.eqb_eq in E. subst. reflexivity.
-  - cbn in E. apply bytes_eqb_eq in E. subst. reflexivity.
-  - cbn in E. apply bytes_eqb_eq in E. subst. reflexivity.
-  - destruct l; [discriminate E|reflexivity].
-  - destruct l0 as [l0|]; [|discriminate E]. f_equal. f_equal.
-    apply (values_eqb_eq l H). exact E.
-  - f_equal. apply (values_eqb_eq l H). exact E.
-  - destruct m; [discriminate E|reflexivity].
-  - destruct m0 as [m0|]; [|discriminate E]. f_equal. f_equal.
-    cbn [value_eqb] in E. revert m0 E.
-    induction H as [|[k a] m Ha Hm IH]; intros [|[k' b] m0] E; try discriminate; [reflexivity|].
-    apply andb_true_iff in E. destruct E as [E1 E3]. apply andb_true_iff in E1. destruct E1 as [E1 E2].
-    cbn [snd] in Ha. rewrite (mkey_eqb_eq _ _ E1), (Ha _ E2), (IH _ E3). reflexivity.
-  - f_equal. apply (values_eqb_eq l H). exact E.
-  - cbn [value_eqb] in E. rewrite (IHa _ E). reflexivity.
-  - reflexivity.
-  - reflexivity.
-Qed.
-
-Lemma value_eqb_refl a : value_eqb a a = true.
-Proof.
-  induction a using value_ind2; cbn [value_eqb]; try reflexivity.
-  - destruct b; reflexivity.
-  - apply Z.eqb_refl.
-  - apply bytes_eqb_refl.
-  - apply bytes_eqb_refl.
-  - induction H as [|a l Ha Hl IH]; [reflexivity|]. rewrite Ha. exact IH.
-  - induction H as [|a l Ha Hl IH]; [reflexivity|]. rewrite Ha. exact IH.
-  - induction H as [|[k a] l Ha Hl IH]; [reflexivity|]. cbn [snd] in Ha. rewrite Ha.
-    replace (mkey_eqb k k) with true; [exact IH|].
-    destruct k; cbn [mkey_eqb]; [symmetry; apply bytes_eqb_refl|symmetry; apply Z.eqb_refl].
-  - induction H as [|a l Ha Hl IH]; [reflexivity|]. rewrite Ha. exact IH.
-  - exact IHa.
-Qed.
